@@ -4,7 +4,7 @@
 (* entries (and the empty run) and every single tampering of one (entry dropped, value     *)
 (* altered or emptied, key injected at its sorted position - an absent key or an entry of  *)
 (* the trie outside the run -, two neighbours swapped).                                    *)
-EXTENDS RangeProof, Json
+EXTENDS RangeProofAlg, Json
 
 CONSTANTS MaxKeys, EmitRows
 
@@ -52,6 +52,16 @@ ProofInv == \A R \in HonestSet : t.t # "nil" =>
               /\ \A x \in Needed(t, first, R) : ~Accept(kv, t, first, R, StoredNodes(t) \ {x})
 (* whole-trie runs without proof *)
 NoProofInv == \A R \in Cands : AcceptNoProof(kv, R) <=> (R = HonestRun(kv, 1, n))
+
+(* the algorithm of trie/proof.go (RangeProofAlg.tla) decides exactly Accept, reports the   *)
+(* right more-flag and never panics: for every candidate run and for the complete proof     *)
+(* database, exactly the needed nodes, and every database with one stored node withheld     *)
+PSets(R) == {StoredNodes(t), Needed(t, first, R)} \cup {StoredNodes(t) \ {x} : x \in StoredNodes(t)}
+AlgInv == \A R \in Cands : \A P \in PSets(R) :
+            LET a == AlgVerify(t, first, R, P) IN
+            /\ ~a.panic
+            /\ a.ok = Accept(kv, t, first, R, P)
+            /\ (a.ok => a.more = More(kv, R))
 
 (* --------------------------------- rows ---------------------------------- *)
 KVList(m) == LET s == SortedKeys(DOMAIN m) IN [i \in 1..Len(s) |-> [k |-> s[i], v |-> m[s[i]]]]
